@@ -44,6 +44,9 @@ func runLine(line string) (res string) {
 		return ""
 	}
 	switch f[0] {
+	case "guard": // guard <op …>: the same op under the watchdog (hang after 20 s, goroutine leak check)
+		rest := strings.Join(f[1:], " ")
+		return guarded(func() string { return runLine(rest) })
 	case "gen":
 		return opGen(f[1:])
 	case "enc":
